@@ -46,7 +46,10 @@ class Contract:
         self.defines = list(kw.pop("defines", []))
         # intermediate assertions ("lemmas"): {"<text contained in the unparsed statement>": [spec, ...]}; after the first
         # statement whose source contains the text, each spec is proved on that path and then assumed
-        self.lemmas = dict(kw.pop("lemmas", {}))    # case name -> dict(requires=[], ensures=[]) additions
+        self.lemmas = dict(kw.pop("lemmas", {}))
+        # {"callee qual": [substrings]}: postcondition clauses of that callee containing one of the substrings are not
+        # imported at this function's call sites
+        self.callee_views = dict(kw.pop("callee_views", {}))    # case name -> dict(requires=[], ensures=[]) additions
         assert not kw, "unknown contract keys %r" % list(kw)
 
     @property
